@@ -271,7 +271,7 @@ def gen_concave(rng, base, L, kind):
 
 def main():
     ck = Check('C12')
-    ck.build_theories(['theories/Props/C12.vo', 'theories/Props/C12b.vo', 'theories/Corr/FloodK.vo'])
+    ck.build_theories(['theories/Props/C12.vo', 'theories/Props/C12b.vo', 'theories/Props/C12c.vo', 'theories/Corr/FloodK.vo'])
     # the flood's neighbours and start cell go through the C11 codec model: re-tie its tables
     rep = gen_geohash.main(REPO, os.path.join(ck.rundir, 'GeohashCfgGen.v'))
     ck.gen('GeohashCfgGen.v', rep, 'GeohashCfgGenEq.v')
@@ -281,6 +281,7 @@ def main():
     ck.gen('FloodGen.v', rep, 'FloodGenEq.v')
     ck.props('Props/C12.v')
     ck.props('Props/C12b.v')     # connectivity hypothesis discharged for rectangles / L-convex cell sets and the concrete geohash neighbourhood
+    ck.props('Props/C12c.v')     # C02b x C12b: for a hole-free GeoBox query the implementation-model per-cell test IS the geometric box test; hashing it is exact
 
     rng = ck.rng
     thorough = ck.tier == 'thorough'
